@@ -99,3 +99,48 @@ func TestVF_C17_BasesValid(t *testing.T) {
 		}
 	})
 }
+
+// TestVF_C17_PrimeModulus: the disjoint-prime-product component on moduli that are a single prime.
+// For a Fermat prime N = 2^k + 1 the odd part of N-1 is 1, so a prover who simply echoes the
+// hash-derived challenges satisfies the response equation; the component has to recognise the prime.
+// (A product of two primes is the control: the honest prover is accepted.)
+func TestVF_C17_PrimeModulus(t *testing.T) {
+	rec := vfh.New(t, "C17")
+	defer rec.Flush()
+	rec.Check(func(rt *rapid.T) {
+		N := big.NewInt(int64(rapid.SampledFrom([]int{5, 17, 257, 65537}).Draw(rt, "fermat")))
+		challenge := new(big.Int).SetBytes(rapid.SliceOfN(rapid.Byte(), 32, 32).Draw(rt, "challenge"))
+		index := big.NewInt(int64(rapid.IntRange(0, 5).Draw(rt, "index")))
+		var proof DisjointPrimeProductProof
+		for i := 0; i < disjointPrimeProductIters; i++ {
+			x := common.GetHashNumber(challenge, index, i, uint(N.BitLen()))
+			x.Mod(x, N)
+			proof.Responses = append(proof.Responses, x)
+		}
+		var ok bool
+		ps := vfh.Guard(func() { ok = disjointPrimeProductVerifyProof(N, challenge, index, proof) })
+		rec.Case("gennaro/single-prime-modulus/echo-prover", true, fmt.Sprintf("pm|%s|%s|%s", N, challenge, index))
+		rec.Sample(func() any { return map[string]any{"N": N.String(), "strategy": "responses echo the challenges"} })
+		if ps != "" {
+			rec.Fail(rt, ps+":disjoint-prime-product:prime-modulus", map[string]any{"N": N.String()})
+			return
+		}
+		if ok {
+			rec.Fail(rt, "bad-modulus-accepted:single-prime(disjoint-prime-product)", map[string]any{"N": N.String()})
+			return
+		}
+		// control: an honest proof for a product of two primes
+		P, Q := c17SafePrimePair(rt, rapid.IntRange(24, 32).Draw(rt, "bits"))
+		gi := func(x *gobig.Int) *big.Int { return big.Convert(new(gobig.Int).Set(x)) }
+		var hp DisjointPrimeProductProof
+		var hok bool
+		if ps := vfh.Guard(func() {
+			hp = disjointPrimeProductBuildProof(gi(P), gi(Q), challenge, index)
+			hok = disjointPrimeProductVerifyProof(gi(new(gobig.Int).Mul(P, Q)), challenge, index, hp)
+		}); ps != "" {
+			rec.Class("gennaro-rare-generation-error(2/p)", 1)
+			return
+		}
+		rec.Control(hok, "honest disjoint-prime-product proof rejected")
+	})
+}
